@@ -67,6 +67,8 @@ def gen_tensor(rng, mods, legs, dtype=None, labels=None, p_store=0.7, p_zero=0.0
     """Tensor description over the given plain leg descriptions."""
     dtype = dtype or rng.choice(DTYPES)
     cplx = dtype.startswith('complex')
+    if p_store == 0.7:      # default: vary the filling between tensors (sparse ... all admissible blocks stored)
+        p_store = rng.choice([0.4, 0.7, 0.7, 0.7, 1.0])
     blocks_all = list(all_blocks(legs))
     if qtotal is None:
         reach = []
@@ -99,11 +101,24 @@ def gen_tensor(rng, mods, legs, dtype=None, labels=None, p_store=0.7, p_zero=0.0
                 sorted=srt, _stats=dict(admissible=len(adm), missing=n_missing))
 
 
-def gen_leg_pool(rng, mods, n=4, max_blocks=4, max_size=3):
+def gen_leg_pool(rng, mods, n=4, max_blocks=4, max_size=3, p_zero_block=None):
+    """Pool of plain legs; `p_zero_block` = probability that a leg gets one block of size 0 (default 0.05, or the
+    environment variable VERIF_P_ZERO_BLOCK for stress runs)."""
+    import os
+    if p_zero_block is None:
+        p_zero_block = float(os.environ.get('VERIF_P_ZERO_BLOCK', '0.05'))
     pool = []
     for _ in range(n):
-        pool.append(npcgen.gen_leg(rng, mods, max_blocks=max_blocks, max_size=max_size,
-                                   allow_empty=rng.random() < 0.25))
+        leg = npcgen.gen_leg(rng, mods, max_blocks=max_blocks, max_size=max_size, allow_empty=rng.random() < 0.25)
+        if len(leg['charges']) >= 2 and rng.random() < p_zero_block:
+            k = rng.randrange(len(leg['charges']))
+            sizes = [b - a for a, b in zip(leg['slices'][:-1], leg['slices'][1:])]
+            sizes[k] = 0
+            sl = [0]
+            for s_ in sizes:
+                sl.append(sl[-1] + s_)
+            leg['slices'] = sl
+        pool.append(leg)
     return pool
 
 
